@@ -222,6 +222,42 @@ Theorem C03_encoder_tables_are_the_source : forall {T} (keq : T -> T -> bool) (s
 Proof. intros. split; intros; [apply SrcTablesTie.fa_setitem_tie | apply SrcTablesTie.fa_add_tie]. Qed.
 Print Assumptions C03_encoder_tables_are_the_source.
 
+(* the prologue of blocks_to_bytes: four empty tables, varnames seeded with the parameter names in signature order (through
+   __setitem__), and the docstring - whenever it is not None, the empty string included - pinned at slot 0 of the constants;
+   re-translated on every run (Gen/SrcIter.v, enc_init), it is the model's enc_init *)
+From PCD Require Gen.SrcIter Proofs.SrcPrologueTie.
+Theorem C03_encoder_prologue_is_the_source : forall {C} (keq : C -> C -> bool) (str_c : str -> C) bt,
+  PCD.Gen.SrcIter.enc_init keq str_c bt = enc_init keq str_c bt.
+Proof. intros. apply SrcPrologueTie.enc_init_tie. Qed.
+Print Assumptions C03_encoder_prologue_is_the_source.
+
+(* FromArgs.to_tuple, by which blocks_to_bytes turns each table into the tuple the code object carries: the test of the key set
+   against range(len) and the values of the items sorted by key (insertion sort on the keys as the meaning of sorted(d.items())),
+   re-translated on every run, IS the model's "values at 0, 1, ..., len-1, ValueError when one is missing" - for every table with
+   distinct keys; the empty table has distinct keys and __setitem__ / add keep them distinct, so every table the encoder builds *)
+From PCD Require Proofs.SrcToTupleTie.
+From Coq Require Import Lists.List.
+Theorem C03_to_tuple_is_the_source : forall {T} (st : fromargs T),
+  NoDup (okeys (fa_items st)) -> PCD.Gen.SrcTables.fa_to_tuple st = fa_to_tuple st.
+Proof. intros T st. apply SrcToTupleTie.fa_to_tuple_tie. Qed.
+Print Assumptions C03_to_tuple_is_the_source.
+
+Theorem C03_encoder_tables_keep_distinct_keys : forall {T} (keq : T -> T -> bool),
+  SrcToTupleTie.distinct_keys (@fromargs_empty T) /\
+  (forall st i a st', SrcToTupleTie.distinct_keys st -> fa_setitem keq st i a = OK st' -> SrcToTupleTie.distinct_keys st') /\
+  (forall st a ov i st', SrcToTupleTie.distinct_keys st -> fa_add keq st a ov = OK (i, st') -> SrcToTupleTie.distinct_keys st').
+Proof.
+  intros T keq. split; [apply SrcToTupleTie.empty_distinct|].
+  split; [apply SrcToTupleTie.setitem_distinct | apply SrcToTupleTie.add_distinct].
+Qed.
+Print Assumptions C03_encoder_tables_keep_distinct_keys.
+
+(* non-vacuity: a table filled out of order with a pinned slot; and one with a gap *)
+Example C03_to_tuple_examples :
+  PCD.Gen.SrcTables.fa_to_tuple (mkFromArgs [(2, 30); (0, 10); (1, 20)] []) = OK [10; 20; 30] /\
+  PCD.Gen.SrcTables.fa_to_tuple (mkFromArgs [(0, 10); (2, 30)] []) = Err ValueError.
+Proof. vm_compute. split; reflexivity. Qed.
+
 (* and the code units and line entries written for one instruction: the body of the final loop of blocks_to_bytes,
    re-translated on every run (Gen/SrcLines.v, AssembleStep), writes - for every instruction with a positive number of code
    units, every operand value and every state of the output - the line entry of the instruction, its extra line offsets, the
